@@ -32,6 +32,15 @@ UNDER = ["_x", "_", "__init", "_9"]
 NONASCII = ["ñu", "Größe", "naïve", "机能", "日本語", "😀x", "é", "Ωmega", "ключ", "ab c",
             "Ünïcödé", "ﬁ", "中文 name"]
 XMLHARD = ["a<b>&c", "q\"uote'", "amp&amp;", "]]>", "<!--x-->"]
+# names that read like numbers, booleans or null (no dot: UVL reserves it)
+NUMLIKE = ["2024", "1e3", "NaN", "Infinity", "inf", "1_000", "0x10", "\u0664\u0662", "-1", "+5",
+           "True", "None", "null"]
+# invisible / bidirectional / not-NFC / case-mapping-special characters
+INVISIBLE = ["a\u200bb", "x\u202ey", "\ufeffbom", "nb\u00a0sp", "soft\u00adhy", "a\u2060b",
+             "e\u0301", "\u212b", "\u1100\u1161", "\u0131", "\u0130", "\u00df", "\u01c5"]
+# leading / trailing blanks, a long name, neighbours of the surrogate range, astral end
+EDGES = [" lead", "trail ", "a" * 300, "\ud7ffx", "\ue000x", "\ufffdx", "\U00010000x",
+         "\U0010fffdx"]
 AFM_WORD = ["A", "B", "C", "D", "E", "F", "G", "H", "Feat1", "Feat2", "Core", "Opt", "Alt1",
             "Leaf", "Node", "X1", "Y2", "Zed", "Kernel", "Gui", "Net", "Db", "Log", "Cfg", "Io",
             "Root", "Abc9", "ZZ", "Qx1y2"]
@@ -42,22 +51,22 @@ NAME_CLASSES = {
     "dquote": DQUOTE, "dot": DOT, "newline": NEWLINE, "backslash": BACKSLASH,
     "keyword": KEYWORD, "astword": ASTWORD, "digit": DIGIT, "under": UNDER,
     "nonascii": NONASCII, "xmlhard": XMLHARD, "afm_word": AFM_WORD, "collide": COLLIDE,
-    "linebreakish": LINEBREAKISH,
+    "linebreakish": LINEBREAKISH, "numlike": NUMLIKE, "invisible": INVISIBLE, "edges": EDGES,
 }
 
 # which name classes each fragment's quantifier admits
 FRAG_NAME_CLASSES = {
     "uvl": ["ident", "ident_lower", "collide", "linebreakish", "quote", "squote", "keyword", "astword", "digit", "under",
-            "nonascii", "backslash"],
+            "nonascii", "backslash", "numlike", "invisible", "edges"],
     "json": ["ident", "ident_lower", "collide", "linebreakish", "quote", "squote", "dquote", "dot", "newline", "backslash",
-             "keyword", "astword", "digit", "under", "nonascii", "xmlhard"],
+             "keyword", "astword", "digit", "under", "nonascii", "xmlhard", "numlike", "invisible", "edges"],
     "afm": ["afm_word"],
     "fide": ["ident", "ident_lower", "collide", "quote", "squote", "dquote", "dot", "backslash", "keyword",
-             "astword", "digit", "under", "nonascii", "xmlhard"],
+             "astword", "digit", "under", "nonascii", "xmlhard", "numlike", "invisible", "edges"],
     "glencoe": ["ident", "ident_lower", "collide", "linebreakish", "quote", "squote", "dquote", "dot", "newline",
-                "backslash", "keyword", "astword", "digit", "under", "nonascii", "xmlhard"],
+                "backslash", "keyword", "astword", "digit", "under", "nonascii", "xmlhard", "numlike", "invisible", "edges"],
     "whole": ["ident", "ident_lower", "collide", "linebreakish", "quote", "squote", "keyword", "astword", "digit", "under",
-              "nonascii", "dot"],
+              "nonascii", "dot", "numlike", "invisible", "edges"],
     "plain": ["ident"],
 }
 
